@@ -743,6 +743,11 @@ def essential(case, v):
         # violation of this clause is left
         c = case['comps'][0]
         content = c[1]
+        if c[2].endswith('-hex'):
+            # family "terminators": the ingredient is the character that follows an escape written without terminator
+            fo = next((ch for ch in content if ch not in 'a\xe9\nz'), 'x')
+            ess.append('escape-without-terminator|follower=' + ('python-white-space-that-is-no-css-white-space' if fo.isspace() else 'other'))
+            return '|'.join(ess)
         roles = []
         for role in ROLES:
             if not any(ROLE[ch] == role for ch in content):
